@@ -282,15 +282,17 @@ def check(sc, r):
         return out
     s = seen[0]
     orig = r.obs["orig"]
+    imp = sc["ts"] == C.IVLE
     if s.get("decode_error"):
         out.append(C.v("decoded", "C25/handler-cannot-decode/%s/%s/%s" % (op, tsn, mode), "decoding at the peer's handler failed: %s" % s["decode_error"]))
     else:
         got = s.get("file") if s.get("decoded") is None else s["decoded"]
-        if got is not None and _norm(got) != _norm(orig):
+        if got is not None and _norm(got, imp) != _norm(orig, imp):
             which = "file" if s.get("decoded") is None else "decoded"
-            diff = _first_diff(_norm(orig), _norm(got))
+            diff = _first_diff(_norm(orig, imp), _norm(got, imp))
             out.append(C.v("decoded", "C25/dataset-differs/%s/%s/%s/%s" % (op, tsn, mode, which), "dataset at the peer's handler differs from the original: %s" % (diff,)))
-    if op == "store":
+    if op == "store" and not sc["chunked_recv"]:
+        # (in chunked-receive mode the data set is only available from the file at event.dataset_path - checked above)
         wire = _wire_dataset(r, "C-STORE-RQ")
         if s.get("encoded_error"):
             out.append(C.v("encoded", "C25/encoded-dataset-error/%s/%s" % (tsn, mode), "event.encoded_dataset() failed: %s" % s["encoded_error"]))
@@ -298,21 +300,36 @@ def check(sc, r):
             out.append(C.v("encoded", "C25/encoded-dataset-differs/%s/%s" % (tsn, mode), "event.encoded_dataset(include_meta=False) returned %d bytes, %d data-set bytes crossed the wire" % (len(s["encoded"]), len(wire))))
     back = r.obs.get("back")
     if back and op in ("find", "n_set", "n_create", "n_action", "n_event_report"):
-        if _norm(back[0]) != _norm(r.obs["back_expected"]):
-            out.append(C.v("decoded", "C25/response-dataset-differs/%s/%s" % (op, tsn), "dataset returned by the handler differs at the requestor: %s" % (_first_diff(_norm(r.obs["back_expected"]), _norm(back[0])),)))
+        if _norm(back[0], imp) != _norm(r.obs["back_expected"], imp):
+            out.append(C.v("decoded", "C25/response-dataset-differs/%s/%s" % (op, tsn), "dataset returned by the handler differs at the requestor: %s" % (_first_diff(_norm(r.obs["back_expected"], imp), _norm(back[0], imp)),)))
     return out
 
 
-def _norm(rep):
+def _norm(rep, implicit=False):
     """Ignore elements the transport legitimately adds or drops (group lengths)."""
     out = []
     for tag, vr, v in rep:
         if tag & 0xFFFF == 0:
             continue
         if vr == "SQ":
-            v = [_norm(x) for x in v]
+            v = [_norm(x, implicit) for x in v]
+        elif (tag >> 16) & 1 and (tag & 0xFFFF) > 0xFF:
+            # private data element: under implicit VR its VR is not transmitted (it is read back as UN bytes), so only
+            # presence is comparable; under explicit VR compare the value as a padded-insensitive string
+            v = "<private>" if implicit else _flat(v)
+        else:
+            v = _flat(v)
         out.append((tag, v))
     return out
+
+
+def _flat(v):
+    """Value rendering insensitive to str/bytes of empty values and to even-length padding."""
+    if isinstance(v, (bytes, bytearray)):
+        return bytes(v).rstrip(b"\x00 ").decode("latin1")
+    if isinstance(v, list):
+        return [str(x).rstrip("\x00 ") for x in v]
+    return str(v).rstrip("\x00 ")
 
 
 def _first_diff(a, b):
